@@ -16,6 +16,7 @@ import math
 import z3
 
 from .values import *  # noqa
+from . import extract as _extract
 
 PREC = 28  # decimal context precision of the running library (checked at run time by the driver)
 
@@ -390,7 +391,7 @@ class Executor:
             import inspect as _insp
             for dunder in ('__bool__', '__len__'):
                 f = _insp.getattr_static(v.pycls, dunder, None)
-                if f is not None and hasattr(f, '__code__') and f.__code__.co_filename.startswith('/repo/'):
+                if f is not None and hasattr(f, '__code__') and f.__code__.co_filename.startswith(_extract.REPO_ROOT + '/'):
                     r = self.inline_real(f, [v], {})       # the class's own truth value, from its source
                     return self.truthy(r) if dunder == '__bool__' else (as_int_term(r) != 0)
             if not hasattr(v.pycls, '__bool__') and not hasattr(v.pycls, '__len__'):
